@@ -563,7 +563,10 @@ func (f *frame) builtin(b *ssa.Builtin, at ssa.Instruction, args []Value, n *nod
 		case *types.Chan:
 			return Value{C: []*Term{x.chanLen(st, v)}}, st
 		case *types.Map:
-			return Value{C: []*Term{Select(st.region("map.len", sArrII), v.C[0])}}, st
+			ml := Select(st.region("map.len", sArrII), v.C[0])
+			// the number of entries of a map is not negative
+			x.assumeTrue(Le(Num(0), ml))
+			return Value{C: []*Term{ml}}, st
 		}
 	case "cap":
 		v := args[0]
